@@ -33,6 +33,8 @@ type process struct {
 	pid      *PID
 	restarts int32
 	mbuffer  []Envelope
+	// stopped is set once cleanup has run; a stopped process is never started again.
+	stopped bool
 }
 
 func newProcess(e *Engine, opts Opts) *process {
@@ -138,6 +140,11 @@ func (p *process) Start() {
 		p.Invoke(p.mbuffer)
 		p.mbuffer = nil
 	}
+	// The buffered messages may have stopped the process (a poison pill, or a
+	// panic that exhausted the restart budget). Its inbox must stay closed then.
+	if p.stopped {
+		return
+	}
 
 	p.inbox.Start(p)
 }
@@ -183,6 +190,7 @@ func (p *process) cleanup(cancel context.CancelFunc) {
 	if cancel != nil {
 		defer cancel()
 	}
+	p.stopped = true
 
 	if p.context.parentCtx != nil {
 		p.context.parentCtx.children.Delete(p.pid.ID)
